@@ -71,6 +71,8 @@ class FakeLink:
         self.stopped = False
         self.bell_override: Optional[Callable[[dict, int], LinkBell]] = None
         self.goodness_override: Optional[Callable[[dict, int], Optional[int]]] = None   # the reported generation duration
+        self.phys_from_executor = False          # physical ids of delivered halves: own numbering (1000+) or the executor's
+        self.reserved: Dict[int, set] = {}       # node -> physical qubits reserved for pairs in flight / not yet mapped
         self.validate_all = False
         self.validate = True
 
@@ -91,6 +93,13 @@ class FakeLink:
         self.sock[(node_id, self.purpose(node_id, sock))] = (remote, self.purpose(remote, remote_sock))
 
     def new_phys(self, node_id: int) -> int:
+        if self.phys_from_executor and node_id in self.nodes:
+            # as a real stack does: ask the controller for a free physical qubit when the pair is generated; the
+            # executor marks it in use at once, the keep response that maps it arrives later
+            p = self.nodes[node_id].ex._get_unused_physical_qubit()
+            self.reserved.setdefault(node_id, set()).add(p)
+            self.bump("physical-qubit-reserved-through-the-executor")
+            return p
         p = self.next_phys.get(node_id, PHYS_BASE)
         self.next_phys[node_id] = p + 1
         return p
